@@ -8,6 +8,9 @@ CONSTANTS
   DevScope = FALSE
   DevCacheLoc = FALSE
   DevDelKey = FALSE
+  DevKeyId = FALSE
+  DevDelCertView = FALSE
+  DevCertObj = FALSE
 INVARIANT MappingViews
 INVARIANT Containment
 INVARIANT AtMostOneDefault
